@@ -1,11 +1,11 @@
 (* Proofs/MethodsWf.v — what an Encoder method writes is exactly one well-formed item denoting its argument. *)
-From MC Require Import Bytes BytesFacts Cbor Item Encoder Methods Utf8 EncoderFacts ItemFacts.
+From MC Require Import Bytes BytesFacts Cbor CborFacts Item Encoder Methods Utf8 EncoderFacts ItemFacts.
 From Coq Require Import Lia.
 Local Open Scope N_scope.
 
-Lemma item_ok_of_meth m cs : arg_ok m = true -> run_meth m = Some cs -> item_ok (item_of m) = true.
+Lemma item_ok_of_meth m : arg_ok m = true -> simple_reserved m = false -> item_ok (item_of m) = true.
 Proof.
-  destruct m; cbn [arg_ok run_meth item_of item_ok]; intros Hok Hrun; unfold lt64; try assumption; try reflexivity.
+  destruct m; cbn [arg_ok item_of item_ok simple_reserved]; intros Hok Hs; unfold lt64; try assumption; try reflexivity.
   - apply N.ltb_lt in Hok. apply N.ltb_lt. lia.
   - apply N.ltb_lt in Hok. apply N.ltb_lt. lia.
   - apply N.ltb_lt in Hok. apply N.ltb_lt. lia.
@@ -18,20 +18,59 @@ Proof.
   - unfold zrange in Hok. apply andb_prop in Hok as [H1 H2]. apply Z.leb_le in H1, H2.
     unfold z_item. destruct (Z.leb_spec 0 x); cbn [item_ok]; unfold lt64; apply N.ltb_lt; lia.
   - destruct neg; cbn [item_ok]; exact Hok.
-  - apply N.ltb_lt in Hok. unfold enc_simple in Hrun.
-    destruct (N.leb_spec x 23).
-    + destruct (N.ltb_spec x 24); [reflexivity|lia].
-    + destruct (N.leb_spec x 31); [discriminate|].
-      destruct (N.ltb_spec x 24); [lia|]. destruct (N.leb_spec 32 x); [|lia]. destruct (N.ltb_spec x 256); [reflexivity|lia].
+  - apply N.ltb_lt in Hok.
+    destruct (N.ltb_spec x 24); [reflexivity|]. destruct (N.leb_spec 24 x); [|lia].
+    destruct (N.ltb_spec x 32); [discriminate|]. destruct (N.leb_spec 32 x); [|lia].
+    destruct (N.ltb_spec x 256); [reflexivity|lia].
   - destruct b; reflexivity.
   - apply is_scalar_lt in Hok. apply N.ltb_lt. lia.
   - apply andb_prop in Hok as [H1 H2]. unfold lt64. now rewrite H1, H2.
   - apply andb_prop in Hok as [H1 H2]. apply andb_prop in H1 as [H0 H1]. unfold lt64. now rewrite H0, H2.
 Qed.
 
-Theorem methods_wellformed m cs : arg_ok m = true -> run_meth m = Some cs ->
+Theorem methods_wellformed m cs : arg_ok m = true -> simple_reserved m = false -> run_meth m = Some cs ->
   exists e, flat cs = ser e /\ wf e = true /\ pref e = true /\ val_of e = item_of m.
 Proof.
-  intros Hok Hrun. rewrite (methods_preferred m cs Hok Hrun).
-  apply enc_pref_is_item. eapply item_ok_of_meth; eassumption.
+  intros Hok Hs Hrun. rewrite (methods_preferred m cs Hok Hs Hrun).
+  apply enc_pref_is_item. now apply item_ok_of_meth.
 Qed.
+
+(* No call is refused, and the class excluded above is exactly the set of calls whose value has no well-formed
+   encoding at all (Spec/Item.v item_ok: simple values 24..=31 do not exist in RFC 8949). *)
+Theorem methods_refuse m : arg_ok m = true ->
+  run_meth m <> None /\ (simple_reserved m = true <-> item_ok (item_of m) = false).
+Proof.
+  intro Hok. split.
+  - destruct (run_meth_some m) as (cs & E). rewrite E. discriminate.
+  - split.
+    + destruct m; cbn [simple_reserved]; try discriminate. intro H. cbn [item_of item_ok].
+      apply andb_prop in H as [H1 H2]. apply N.leb_le in H1. apply N.ltb_lt in H2.
+      destruct (N.ltb_spec x 24); [lia|]. destruct (N.leb_spec 32 x); [lia|]. reflexivity.
+    + intro H. destruct (simple_reserved m) eqn:E; [reflexivity|].
+      rewrite (item_ok_of_meth m Hok E) in H. discriminate.
+Qed.
+
+(* F2b: the two bytes written for simple(24..=31) are not the serialisation of any well-formed item *)
+Lemma f8_reserved_not_wf x e : 24 <= x <= 31 -> wf e = true -> ser e <> [248; x].
+Proof.
+  intros Hx Hw Hs.
+  assert (HL: len (ser e) < 18446744073709551616) by (rewrite Hs; cbv; reflexivity).
+  pose proof (parse_ser_auto e [] Hw HL) as P. rewrite app_nil_r, Hs in P.
+  assert (x = 24 \/ x = 25 \/ x = 26 \/ x = 27 \/ x = 28 \/ x = 29 \/ x = 30 \/ x = 31) as C by lia.
+  destruct C as [->|[->|[->|[->|[->|[->|[->| ->]]]]]]]; vm_compute in P; discriminate.
+Qed.
+
+Theorem simple_reserved_refuted :
+  exists x, 24 <= x <= 31 /\ arg_ok (MSimple x) = true /\ simple_reserved (MSimple x) = true /\
+    option_map flat (run_meth (MSimple x)) = Some [248; x] /\ one_item [248; x] = None.
+Proof. exists 24. vm_compute. repeat split; try reflexivity; discriminate. Qed.
+
+Theorem simple_reserved_not_wf : forall x, 24 <= x <= 31 ->
+  option_map flat (run_meth (MSimple x)) = Some [248; x] /\
+  forall e, wf e = true -> ser e <> [248; x].
+Proof.
+  intros x Hx. split.
+  - rewrite simple_reserved_bytes by lia. reflexivity.
+  - intros e Hw. now apply f8_reserved_not_wf.
+Qed.
+
